@@ -197,6 +197,10 @@ func guard(f func() ([]string, int64, error)) (r pathResult) {
 	return
 }
 
+// Total is the C10 mode: the case carries no expected answer; the only thing that matters is that every path returns
+// (an error or an answer) without panicking
+var Total bool
+
 // Run executes one case through every path; which selects the property family the mismatches are owned by
 func (e *Env) Run(idx int, c *Case) []Mismatch {
 	text := Query(c.Q)
@@ -219,6 +223,7 @@ func (e *Env) Run(idx int, c *Case) []Mismatch {
 		switch {
 		case r.pan != nil:
 			add(path, "panic", r, want, wantN, "C10,"+owner)
+		case Total:
 		case r.err != nil:
 			add(path, "error", r, want, wantN, owner)
 		default:
@@ -296,7 +301,7 @@ func (e *Env) Run(idx int, c *Case) []Mismatch {
 		}
 		return nil
 	})
-	if onlyObjSyms(c.Syms) {
+	if onlyObjSyms(c.Syms) && !Total {
 		judge("objectz", guard(func() ([]string, int64, error) {
 			items, n, err := e.Obj.QueryEntities(text)
 			var ids []string
